@@ -523,6 +523,39 @@ def scenario(seed, klass, miu=None):
                     if rnd.random() < 0.5:
                         R.back()
             R.drain()
+        elif klass == "ctrl":
+            # connection set-up PDUs with every parameter combination (CC with RW 0..15 and MIUX present/absent, DM)
+            # next to a datagram that leaves -3..+4 octets of slack in the aggregate
+            rw, m = rnd.choice([0, 0, 1, 2, 15]), rnd.choice([128, 129, 2175])
+            R.add_ldl()
+            rb = nfc.llcp.Socket(R.B, RAW)
+            rb.bind(50)
+            rb._tco.setsockopt(nfc.llcp.SO_RCVBUF, 100)
+            lst = nfc.llcp.Socket(R.A, DLC)
+            lst.setsockopt(nfc.llcp.SO_RCVMIU, m)
+            lst.setsockopt(nfc.llcp.SO_RCVBUF, rw)
+            lst.bind(rnd.choice([33, 44]))
+            lst.listen(2)
+            R.lst = lst
+            nconn = rnd.randint(1, 2)
+            for j in range(nconn):
+                rb.send(pdu_mod.Connect(lst.getsockname(), 50 + j, miu=rnd.choice([128, 300]), rw=rnd.choice([0, 1, 7])), DONTWAIT)
+            for _ in range(3):
+                R.back()
+            cclen = 2 + (4 if m > 128 else 0) + (3 if rw != 1 else 0)
+            n = miu - 4 - nconn * (2 + cclen) + rnd.randint(-3, 4)
+            first_ui = rnd.random() < 0.5
+            if first_ui and n >= 0:
+                R.ldl_send(0, n)
+            for j in range(nconn):
+                R.dlc_a.append(lst.accept())
+                R.dlc_b.append(None)
+                R.touched = True
+            if not first_ui and n >= 0:
+                R.ldl_send(0, n)
+            if rnd.random() < 0.3:
+                R.dm_sap(rnd.random() < 0.5)
+            R.drain()
         else:  # "mix"
             for _ in range(rnd.randint(1, 3)):
                 R.add_ldl()
@@ -575,7 +608,7 @@ def scenario(seed, klass, miu=None):
     return dict(id="%s-%d" % (klass, seed), const=dict(miu=miu, agf=agf), ev=R.ev)
 
 
-KLASSES = ("sdres", "boundary", "dlc", "mix")
+KLASSES = ("sdres", "boundary", "dlc", "mix", "ctrl")
 
 
 # ------------------------------------------------------------------------------------------------
@@ -658,7 +691,7 @@ def run(tier, seed):
     ck.cover(witnesses_reached=sorted(sum(WITNESSES.values(), [])))
 
     # 2. conformance: real collect()/dispatch() -> Trace_LlcpCollect
-    n = 320 if quick else 4000
+    n = 400 if quick else 5000
     traces, meta = [], {}
     for i in range(n):
         klass = KLASSES[i % len(KLASSES)]
